@@ -96,6 +96,10 @@ class FlowObserver:
         self.known = set()
         self.wire = []            # frames written, in order: (kind, ...)
         self.errors = []          # QuicConnectionError codes raised by handlers
+        # hypothesis of the C06 theorems (GWFRun): a delivery report names a frame that was
+        # emitted for that stream object and not yet reported; violations are recorded here
+        self.hyp_violations = []
+        self.reports_checked = 0
         c = conn
         self._emit_line(
             f"flow.new {_b(c._is_client)} {c._local_max_data.value} {c._local_max_stream_data_bidi_local} "
@@ -152,8 +156,13 @@ class FlowObserver:
         o_get, o_getreset, o_data, o_reset, o_stop = (
             sd.get_frame, sd.get_reset_frame, sd.on_data_delivery, sd.on_reset_delivery, rv.on_stop_sending_delivery)
 
+        emitted = []          # (start, stop, fin) of frames handed out, not yet reported
+        reset_out = [0]
+
         def get_frame(max_size, max_offset=None):
             fr = o_get(max_size, max_offset)
+            if fr is not None:
+                emitted.append((fr.offset, fr.offset + len(fr.data), bool(fr.fin)))
             if obs.serve is not None:
                 obs.serve["getargs"] = (max_size, max_offset)
                 obs.serve["frame"] = None if fr is None else (fr.offset, len(fr.data), fr.fin)
@@ -161,12 +170,18 @@ class FlowObserver:
 
         def get_reset_frame():
             fr = o_getreset()
+            reset_out[0] += 1
             if obs.serve is not None:
                 obs.serve["resetframe"] = fr.final_size
             return fr
 
         def on_data_delivery(delivery, start, stop, fin):
             err = None
+            obs.reports_checked += 1
+            if (start, stop, bool(fin)) in emitted:
+                emitted.remove((start, stop, bool(fin)))
+            else:
+                obs.hyp_violations.append(f"stream {s.stream_id}: report for ({start},{stop},{fin}) which is not an outstanding frame")
             try:
                 o_data(delivery, start, stop, fin)
             except Exception as e:  # noqa
@@ -178,6 +193,11 @@ class FlowObserver:
                 raise err
 
         def on_reset_delivery(delivery):
+            obs.reports_checked += 1
+            if reset_out[0] > 0:
+                reset_out[0] -= 1
+            else:
+                obs.hyp_violations.append(f"stream {s.stream_id}: RESET_STREAM report without an outstanding RESET_STREAM frame")
             o_reset(delivery)
             if obs.live(s):
                 obs.emit(f"flow.rdeliv {s.stream_id} {_b(delivery == QuicDeliveryState.ACKED)}", "ok")
